@@ -253,9 +253,9 @@ func (E *Engine) invoke(fr *Frame, st *State, recv *Term, cc *ssa.CallCommon, ar
 	if E.isNoEffect(full, cc.Method.Pkg()) {
 		return E.pureResult(fr, st, full, cc.Signature().Results(), append([]Val{recv}, args...), instr)
 	}
-	if E.P.pureMethods[full] {
-		E.note("trusted: interface method " + shortName(full) + " has no effect and returns a function of its receiver and arguments (//verif:pure-method)")
-		return E.pureResult(fr, st, full, cc.Signature().Results(), append([]Val{recv}, args...), instr)
+	if E.P.pureMethods[full] || E.P.pureMethods[normIface(full)] {
+		E.note("trusted: interface method " + shortName(normIface(full)) + " has no effect and returns a function of its receiver and arguments (//verif:pure-method)")
+		return E.pureResult(fr, st, normIface(full), cc.Signature().Results(), append([]Val{recv}, args...), instr)
 	}
 	return E.unknownCall(fr, st, "interface call "+full, cc.Signature().Results(), instr, args)
 }
@@ -269,7 +269,28 @@ func isSyncLocker(t types.Type) bool {
 
 func (E *Engine) ifaceContract(cc *ssa.CallCommon) *Harness {
 	key := cc.Value.Type().String() + "." + cc.Method.Name()
-	return E.P.ifaceContracts[key]
+	if h := E.P.ifaceContracts[key]; h != nil {
+		return h
+	}
+	return E.P.ifaceContracts[normIface(key)]
+}
+
+// normIface drops type arguments from an interface-method name ("pkg.I[K, V].M" -> "pkg.I.M"), so that a
+// directive can name a method of a generic interface whatever it is instantiated with.
+func normIface(s string) string {
+	var sb strings.Builder
+	depth := 0
+	for _, r := range s {
+		switch {
+		case r == '[':
+			depth++
+		case r == ']':
+			depth--
+		case depth == 0:
+			sb.WriteRune(r)
+		}
+	}
+	return sb.String()
 }
 
 // resultVals builds fresh, well-typed result values for a call whose effect is not modelled.
@@ -1324,6 +1345,16 @@ func (E *Engine) builtin(fr *Frame, st *State, b *ssa.Builtin, cc *ssa.CallCommo
 			dk, dks := E.mdomKey(mt, fr.tenv)
 			dh := E.get(st, dk, dks)
 			E.set(st, dk, tb.Ite(tb.Eq(m, E.null()), dh, tb.Store(dh, m, tb.ConstArray(ArraySort(ks, SBool), tb.False()))))
+			return nil
+		}
+		if stp, ok := xt.(*types.Slice); ok {
+			// clear(slice): the elements are zeroed; modelled as "the backing array's contents are forgotten"
+			// (an over-approximation: nothing is claimed about them afterwards)
+			sl := args[0].(*Term)
+			ak, aks := E.arrKey(stp.Elem(), fr.tenv)
+			ah := E.get(st, ak, aks)
+			_, inner := aks.ArrayParts()
+			E.set(st, ak, tb.Store(ah, E.slcArr(sl), tb.Fresh("cleared", inner)))
 			return nil
 		}
 		E.fail("clear of %s", xt)
